@@ -65,16 +65,31 @@ def cases(shard, rnd):
             for n, t, _ in spec.args:
                 if gf.constraint_of(spec, n)[0] == refspec.FIXED:
                     continue
+                # ... and values of a neighbouring type: refused today; a
+                # library that starts to accept them has to return them
+                # unchanged in value AND type like any other accepted value
                 over = {'shortstr': ['q' * 256, 'é' * 128, '€' * 86,
-                                     'x' * 300],
-                        'octet': [256, -1], 'short': [65536, -1],
-                        'long': [2**32, -1], 'longlong': [2**63, -2**63 - 1],
+                                     'x' * 300, b'abc', bytearray(b'abc'),
+                                     b'\xff\xfe'],
+                        'longstr': [b'\x00guest\x00guest', b'abc',
+                                    bytearray(b'abc'), b'\xff\xfe'],
+                        'octet': [256, -1, 1.0, '1'],
+                        'short': [65536, -1, 1.0, '1'],
+                        'long': [2**32, -1, 1.0, '1'],
+                        'longlong': [2**63, -2**63 - 1, 1.0, '1'],
+                        'table': [[('k', 'v')], (('k', 'v'),)],
                         }.get(t, [])
                 for v in over:
                     vals = gf.assignment(rnd, spec)
                     vals[n] = v
                     yield {'index': idx, 'vals': vals, 'ch': 1,
                            'why': 'probe:' + n, 'probe': True}
+            # the deepest table the encoder itself accepts (whatever the
+            # interpreter's recursion limit makes that) must come back
+            for n, t, _ in spec.args:
+                if t == 'table' and idx % 0x10000 in (10, 11, 20):
+                    yield {'index': idx, 'vals': gf.assignment(rnd, spec),
+                           'ch': 1, 'why': 'deepest:' + n, 'deepest': n}
         for _ in range(shard['n_random']):
             yield {'index': idx,
                    'vals': gf.assignment(rnd, spec, big=rnd.random() < 0.02),
@@ -84,7 +99,94 @@ def cases(shard, rnd):
 _argseen = {}
 
 
+def _chain(depth, via):
+    v = {'leaf': 1}
+    for i in range(depth):
+        v = {'n': v} if via == 'F' or i % 2 else {'a': [v]}
+    return v
+
+
+def _chain_depth(v):
+    """Depth of a _chain() value, walked without recursion."""
+    d = 0
+    while True:
+        if isinstance(v, dict) and set(v) == {'n'}:
+            v = v['n']
+        elif isinstance(v, dict) and set(v) == {'a'} and \
+                isinstance(v['a'], list) and len(v['a']) == 1:
+            v = v['a'][0]
+        elif v == {'leaf': 1}:
+            return d
+        else:
+            return None
+        d += 1
+
+
+def _deepest(case, rec):
+    """Binary search for the deepest nesting frame.marshal accepts, then
+    round trips a little below it (a constant slack for the few frames the
+    decoder's entry path costs more than the encoder's)."""
+    spec = refspec.METHODS[case['index']]
+    cls = boundary.lib_class_for(case['index'])
+    arg = case['deepest']
+    for via in ('F', 'AF'):
+        def enc(depth):
+            vals = dict(case['vals'])
+            vals[arg] = _chain(depth, via)
+            c = call(cls, **vals)
+            return common.lib_marshal(c.value, 1) if c.ok else c
+        lo, hi = 8, 4000
+        if not enc(lo).ok:
+            rec.violation('encode-refused:shallow-nesting',
+                          '%s refuses a table nested %d deep' % (spec.name,
+                                                                  lo), case)
+            return
+        while lo + 1 < hi:
+            mid = (lo + hi) // 2
+            if enc(mid).ok:
+                lo = mid
+            else:
+                hi = mid
+        rec.maxi('deepest_encodable_nesting', lo)
+        for depth in sorted({lo - 12, lo - 30, lo * 9 // 10, lo * 3 // 4,
+                             lo // 2}):
+            if depth < 8:
+                continue
+            rec.ev()
+            m = enc(depth)
+            if not m.ok:
+                continue
+            u = common.lib_unmarshal(m.value)
+            wit = {'index': case['index'], 'vals': case['vals'], 'ch': 1,
+                   'why': case['why'], 'deepest': arg,
+                   'note': 'depth %d of %d encodable, via %s' % (depth, lo,
+                                                                via)}
+            if not u.ok:
+                rec.violation('decode-failed-deep:%s' % (u.exc_type or
+                                                          'budget'),
+                              '%s with %s nested %d deep (the encoder '
+                              'accepts up to %d): frame.marshal succeeds, '
+                              'frame.unmarshal %s' % (spec.name, arg, depth,
+                                                      lo, u.describe()[:120]),
+                              wit)
+                return
+            got = getattr(u.value[2], arg, None)
+            if u.value[0] != len(m.value) or _chain_depth(got) != depth:
+                rec.violation('arg-mismatch:table:deep',
+                              '%s with %s nested %d deep came back with '
+                              'depth %r' % (spec.name, arg, depth,
+                                            _chain_depth(got)), wit)
+                return
+            rec.count('deepest_roundtrips')
+            rec.nt(canon.digest((case['index'], arg, via, depth)))
+
+
 def run_case(case, rec):
+    if case.get('deepest'):
+        rec.ev()
+        common.set_legacy(False)
+        _deepest(case, rec)
+        return
     idx, vals, ch = case['index'], case['vals'], case['ch']
     spec = refspec.METHODS[idx]
     rec.ev()
